@@ -142,6 +142,25 @@ def run_nlc(case, ctx):
             and numpy.allclose(numpy.asarray(maf), maa, rtol=0, atol=1e-9)):
         ctx.violation(K + "frame-differs-from-array", "DataFrame and array give different values under the same seed",
                       cfg=cfg)
+    # the same array object refilled in place between two calls
+    try:
+        other = make_table(numpy.random.RandomState(case["sub"] % 997 + 1), kind)
+        if other.shape == Xk.shape:
+            buf = Xk.astype(float).copy()
+            numpy.random.seed(seed)
+            non_linear_correlations(buf, make_model(mname), draws=draws)
+            buf[:] = other
+            numpy.random.seed(seed)
+            second = non_linear_correlations(buf, make_model(mname), draws=draws)
+            numpy.random.seed(seed)
+            fresh = non_linear_correlations(other.astype(float).copy(), make_model(mname), draws=draws)
+            ctx.hit("nlc.buffer_refilled")
+            if not numpy.allclose(second, fresh, rtol=0, atol=1e-12, equal_nan=True):
+                ctx.violation(K + "buffer-refilled-in-place", "the result for an array refilled in place is not the "
+                              "result for its new content", cfg=cfg)
+    except Exception as e:
+        ctx.violation(K + "raised/%s/%s" % (kind, type(e).__name__), "second call on a refilled array: %s" % (
+            str(e)[:150]), cfg=cfg)
     for M in (cf, mif, maf):
         if not (hasattr(M, "columns") and list(M.columns) == cols and list(M.index) == cols):
             ctx.violation(K + "labels-lost", "result for a DataFrame does not keep the variable names", cfg=cfg,
